@@ -42,7 +42,9 @@ class ApiImmut(probe.Contract):
     def _immut(self, st, raised=False):
         c = core.ctx()
         for s in st['snaps']:
-            d = s.diff()
+            bit, d = s.semantic_diff()
+            if bit is not None and d is None:
+                c.events['argument_gauge_changed_only:' + self.api] += 1
             tags = []
             if d is not None:
                 sg = shape_sig_cores(s.cores)
